@@ -2,7 +2,8 @@
 From VRP Require Import Base.Tac Model.Core Spec.Feasible Spec.Valid Proofs.ValidP Spec.Mutations.
 
 Lemma valid_b_nil P S :
-  valid_b P S = [] <-> precond_viol P = [] /\ accounted_b P S = [] /\ feasible_viols P S = [] /\ replay_viol P S = [].
+  valid_b P S = [] <-> precond_viol P = [] /\ accounted_b P S = [] /\ feasible_viols P S = [] /\ replay_viol P S = []
+                       /\ xfeasible_viols P S = [] /\ xreplay_viols P S = [].
 Proof. unfold valid_b. rewrite !app_nil_iff. tauto. Qed.
 
 (* ------------------------------------------------------------------ generic list facts *)
@@ -52,7 +53,7 @@ Qed.
 Lemma valid_tour P S k t : valid_b P S = [] -> nth_error (sl_tours S) k = Some t ->
   feasible_viol P (Z.of_nat k) t = [] /\ replay_tour P (Z.of_nat k) t = [].
 Proof.
-  intros H Hk. apply valid_b_nil in H. destruct H as (_ & _ & HF & HR).
+  intros H Hk. apply valid_b_nil in H. destruct H as (_ & _ & HF & HR & _).
   unfold feasible_viols in HF. unfold replay_viol in HR. apply app_nil_iff in HR. destruct HR as [HR _].
   split; [exact (concat_mapi_nil _ _ _ _ HF Hk)|exact (concat_mapi_nil _ _ _ _ HR Hk)].
 Qed.
@@ -154,7 +155,7 @@ Lemma mut_stat_total_invalid P S f d :
   valid_b P S = [] -> d <> 0 -> (f < 7)%nat -> valid_b P (mutS (MStatTotal f d) S) <> [].
 Proof.
   intros HV Hd Hf HV'. apply valid_b_nil in HV. apply valid_b_nil in HV'.
-  destruct HV as (_&_&_&HR). destruct HV' as (_&_&_&HR').
+  destruct HV as (_&_&_&HR&_). destruct HV' as (_&_&_&HR'&_).
   unfold replay_viol in *. apply app_nil_iff in HR. apply app_nil_iff in HR'.
   destruct HR as [_ HT]. destruct HR' as [_ HT'].
   apply total_checks_eq in HT. apply total_checks_eq in HT'. cbn [mutS sl_stat sl_tours] in HT'.
